@@ -129,6 +129,11 @@ def gen_plan(seed: int, run: int, tier: str) -> dict:
         # connection resets: before delivery (the call is not executed) or after execution
         # (executed, the client sees UNAVAILABLE - the ambiguous case)
         plan["rpc_faults"] = [{"task": rng.choice(names), "nth": rng.randint(0, 6), "phase": rng.choice(["pre", "post"])} for _ in range(rng.randint(1, 2))]
+    if kind in ("rdb", "cached") and rng.random() < 0.3:
+        # a statement or a commit fails (I/O error, lost connection): the call raises
+        # StorageInternalError and must not have had any effect; the worker goes on using
+        # the same storage object
+        plan["sql_faults"] = [{"task": rng.choice(names), "nth": rng.randint(0, 25), "at": rng.choice(["exec", "exec", "commit"])} for _ in range(rng.randint(1, 3))]
     if kind == "jr" and "redis_stalls" not in cfg and rng.random() < 0.35:
         # the connection to Redis fails: before a write command is sent (not executed) or
         # after the server executed it (reply lost: the call's outcome is ambiguous)
@@ -243,6 +248,8 @@ def shrink_paths(plan: dict) -> list[tuple]:
         paths.append(("rpc_faults",))
     if "redis_faults" in plan:
         paths.append(("redis_faults",))
+    if "sql_faults" in plan:
+        paths.append(("sql_faults",))
     paths.append(("sched", "table"))
     return paths
 
@@ -320,6 +327,25 @@ def _run(plan: dict, sim: sched.Sim, ch: sched.Chooser, dep: deploy.Deployment, 
 
         dep.server.fault = rpc_fault
 
+    sql_faults = [dict(f) for f in plan.get("sql_faults", [])]
+    sql_hit: dict[str, int] = {}
+    if getattr(dep, "db", None) is not None and sql_faults:
+        nsql: dict[tuple, int] = {}
+
+        def sql_fault(task: Any, skind: str, word: str) -> bool:
+            if task is None or task.name not in plan["tasks"]:
+                return False
+            at = "commit" if skind == "sql.commit" else "exec"
+            key = (task.name, at)
+            nsql[key] = nsql.get(key, 0) + 1
+            for f in sql_faults:
+                if not f.get("fired") and f["task"] == task.name and f["at"] == at and f["nth"] == nsql[key] - 1:
+                    f["fired"] = True
+                    sql_hit[task.name] = sql_hit.get(task.name, 0) + 1
+                    return True
+            return False
+
+        dep.db.fault = sql_fault
     redis_faults = [dict(f) for f in plan.get("redis_faults", [])]
     if dep.redis is not None and redis_faults:
         nwrite: dict[str, int] = {}
@@ -344,11 +370,23 @@ def _run(plan: dict, sim: sched.Sim, ch: sched.Chooser, dep: deploy.Deployment, 
             for op in t["ops"]:
                 h = {"task": name, "op": op, "inv": sim.stamp(), "ret": None, "res": None}
                 sim.note("inv", name, op["op"])
+                hits0 = sql_hit.get(name, 0)
                 res = ops.apply_real(st, op, env)
                 if res[0] == "skip":
                     continue
                 if res[0] == "ok" and op["op"] in ("create_new_study", "create_new_trial"):
                     env.real[op["as"]] = res[1][1]
+                if res[0] == "err" and res[1] == "StorageInternalError" and sql_hit.get(name, 0) > hits0:
+                    # the injected statement/commit failure: the caller cannot know whether the
+                    # call took effect (e.g. create_new_study commits, then looks the id up in
+                    # a second transaction) - wholly applied or wholly absent, nothing else
+                    sim.count("op_failed_sql_error")
+                    sim.note("sql-failed", name, op["op"])
+                    if not op["op"].startswith("get_"):
+                        h["res"] = None
+                        h["ret"] = None
+                        history.append(h)
+                    continue
                 if res[0] == "err" and (res[1] == "StorageInternalError" or (res[1] == "SimRpcError" and "StorageInternalError" in res[2])) and cfg.get("busy_timeout") == 0.0 and ("rdb" in kind or "cached" in kind):
                     # SQLITE_BUSY with an exhausted busy timeout: a failed call, to be
                     # linearised as a no-op (the final state must not show any part of it)
